@@ -1,39 +1,28 @@
 // vh is the single harness binary of the goProbe verification machinery. Each sub-command
 // binds one TLA+ specification family to the real code (replay of TLC behaviours, or
-// recording of implementation traces for TLC to validate).
+// recording of implementation traces for TLC to validate). Families register their
+// sub-commands in init(); cmd/vh/reg_<family>.go imports the family package.
 package main
 
 import (
-	"flag"
 	"fmt"
 	"os"
+	"sort"
 
-	"verifharness/internal/flowmap"
+	"verifharness/internal/hx"
 )
-
-func usage() {
-	fmt.Fprintln(os.Stderr, "usage: vh <family-command> [flags]")
-	os.Exit(2)
-}
 
 func main() {
 	if len(os.Args) < 2 {
-		usage()
+		n := hx.Names()
+		sort.Strings(n)
+		fmt.Fprintln(os.Stderr, "usage: vh <command> [flags]; commands:", n)
+		os.Exit(2)
 	}
-	cmd, args := os.Args[1], os.Args[2:]
-	fs := flag.NewFlagSet(cmd, flag.ExitOnError)
-	seed := fs.Uint64("seed", 1, "seed")
-	switch cmd {
-	case "flowmap-replay":
-		fs.Parse(args)
-		flowmap.Replay(*seed, os.Stdin, os.Stdout)
-	case "flowmap-drive":
-		traces := fs.Int("traces", 4, "traces")
-		ops := fs.Int("ops", 2000, "ops per trace")
-		keys := fs.Int("keys", 200, "distinct keys")
-		fs.Parse(args)
-		flowmap.Drive(*seed, *traces, *ops, *keys, os.Stdout)
-	default:
-		usage()
+	c, ok := hx.Lookup(os.Args[1])
+	if !ok {
+		fmt.Fprintln(os.Stderr, "vh: unknown command", os.Args[1])
+		os.Exit(2)
 	}
+	c(os.Args[2:])
 }
